@@ -3,7 +3,9 @@
 package main
 
 import (
+	"encoding/hex"
 	"fmt"
+	"math/big"
 	"math/rand/v2"
 
 	"github.com/onflow/crypto"
@@ -99,6 +101,7 @@ func blsTranscript(r *rand.Rand, n int) {
 		emit("bls_threshold_share_pk", seed, tpk[tn-1].Encode())
 		emit("bls_threshold_reconstruct", seed, rec)
 	}
+	blsEdgeTranscript(r)
 	// one seeded Joint-Feldman run, synchronous delivery
 	const dn, dt = 3, 1
 	var logs []string
@@ -156,3 +159,100 @@ func blsTranscript(r *rand.Rand, n int) {
 	}
 	emits("dkg_logs", nil, fmt.Sprint(logs))
 }
+
+// blsEdgeTranscript feeds boundary encodings (field elements p-1, p, p+1, 2^381-1, 0..3; scalars
+// r-1, r, r+1, 0; every header-bit combination; infinity variants) to every decoding entry point,
+// including the ones that read G1 points without a subgroup check, and records values and error
+// texts: range checks and decoders are where limb-level code differs between builds.
+func blsEdgeTranscript(r *rand.Rand) {
+	p, _ := new(big.Int).SetString("1a0111ea397fe69a4b1ba7b6434bacd764774b84f38512bf6730d2a0f6b0f6241eabfffeb153ffffb9feffffffffaaab", 16)
+	q, _ := new(big.Int).SetString("73eda753299d7d483339d80809a1d80553bda402fffe5bfeffffffff00000001", 16)
+	res := func(v []byte, err error) string {
+		if err != nil {
+			return "error: " + err.Error()
+		}
+		return hex.EncodeToString(v)
+	}
+	var xs []*big.Int
+	for _, d := range []int64{-2, -1, 0, 1, 2} {
+		xs = append(xs, new(big.Int).Add(p, big.NewInt(d)))
+	}
+	for _, v := range []int64{0, 1, 2, 3, 4} {
+		xs = append(xs, big.NewInt(v))
+	}
+	xs = append(xs, new(big.Int).Sub(new(big.Int).Lsh(big.NewInt(1), 381), big.NewInt(1)),
+		new(big.Int).Lsh(big.NewInt(1), 380), new(big.Int).Rsh(p, 1), new(big.Int).Add(new(big.Int).Rsh(p, 1), big.NewInt(1)))
+	for i := 0; i < 4; i++ {
+		xs = append(xs, new(big.Int).Mod(new(big.Int).SetBytes(rb(r, 60)), p))
+	}
+	hs := crypto.NewExpandMsgXOFKMAC128("edge")
+	sk, _ := crypto.GeneratePrivateKey(crypto.BLSBLS12381, rb(r, 32))
+	good, _ := sk.Sign([]byte("m"), hs)
+	for _, x := range xs {
+		for _, hdr := range []byte{0x80, 0xa0, 0x00, 0xc0, 0xe0, 0x40} {
+			g1 := x.FillBytes(make([]byte, 48))
+			g1[0] |= hdr
+			// G1 readers without a subgroup check
+			a, err := crypto.AggregateBLSSignatures([]crypto.Signature{g1, good})
+			emits("edge_g1_aggregate", g1, res(a, err))
+			rec, err := crypto.BLSReconstructThresholdSignature(3, 1, []crypto.Signature{g1, good}, []int{0, 2})
+			emits("edge_g1_reconstruct", g1, res(rec, err))
+			ok, err := sk.PublicKey().Verify(g1, []byte("m"), hs)
+			emits("edge_g1_verify", g1, fmt.Sprint(ok, err))
+			sp, err := crypto.SPOCKVerify(sk.PublicKey(), g1, sk.PublicKey(), g1)
+			emits("edge_g1_spock", g1, fmt.Sprint(sp, err))
+			// G2: the edge value in either coefficient
+			for pos := 0; pos < 2; pos++ {
+				g2 := make([]byte, 96)
+				x.FillBytes(g2[pos*48 : pos*48+48])
+				if pos == 1 {
+					g2[47] = 1
+				}
+				g2[0] |= hdr
+				pk, err := crypto.DecodePublicKey(crypto.BLSBLS12381, g2)
+				if err != nil {
+					emits("edge_g2_decode", g2, "error: "+err.Error())
+				} else {
+					emit("edge_g2_decode", g2, pk.Encode())
+				}
+			}
+		}
+	}
+	for _, d := range []int64{-2, -1, 0, 1} {
+		for _, base := range []*big.Int{q, big.NewInt(2), new(big.Int).Lsh(big.NewInt(1), 255)} {
+			v := new(big.Int).Add(base, big.NewInt(d))
+			b := v.FillBytes(make([]byte, 32))
+			k, err := crypto.DecodePrivateKey(crypto.BLSBLS12381, b)
+			if err != nil {
+				emits("edge_sk_decode", b, "error: "+err.Error())
+				continue
+			}
+			emit("edge_sk_decode", b, append(k.Encode(), k.PublicKey().Encode()...))
+			sg, err := k.Sign([]byte("edge"), hs)
+			emits("edge_sk_sign", b, res(sg, err))
+		}
+	}
+	// fixed-output hashers: halves equal, >= p, zero (the two field elements of hash-to-curve)
+	for _, fill := range []byte{0x00, 0x01, 0xff, 0x1a} {
+		o := make([]byte, 128)
+		for i := range o {
+			o[i] = fill
+		}
+		fh := &fixedHasher{o}
+		sg, err := sk.Sign([]byte("x"), fh)
+		emits("edge_fixed_hasher_sign", o[:4], res(sg, err))
+	}
+	pb := p.FillBytes(make([]byte, 64))
+	fh := &fixedHasher{append(append([]byte{}, pb...), pb...)}
+	sg, err := sk.Sign([]byte("x"), fh)
+	emits("edge_fixed_hasher_sign", pb[:4], res(sg, err))
+}
+
+type fixedHasher struct{ o []byte }
+
+func (f *fixedHasher) Algorithm() hash.HashingAlgorithm { return hash.KMAC128 }
+func (f *fixedHasher) Size() int                         { return len(f.o) }
+func (f *fixedHasher) ComputeHash([]byte) hash.Hash      { return append([]byte{}, f.o...) }
+func (f *fixedHasher) Write(b []byte) (int, error)       { return len(b), nil }
+func (f *fixedHasher) SumHash() hash.Hash                { return append([]byte{}, f.o...) }
+func (f *fixedHasher) Reset()                            {}
